@@ -227,13 +227,17 @@ func init() {
 				case 0:
 					b = validCmd(3)
 				case 1:
-					b = command.MustParse(a).Join(seg()).String()
+					if ca, err := command.Parse(a); err == nil {
+						b = ca.Join(seg()).String()
+					}
 				case 2:
 					if a != "/" {
 						b = a + seg() // shared textual prefix
 					}
 				case 3:
-					a, b = command.MustParse(a).Join(seg(), seg()).String(), a
+					if ca, err := command.Parse(a); err == nil {
+						a, b = ca.Join(seg(), seg()).String(), a
+					}
 				}
 				ca, err1 := command.Parse(a)
 				cb, err2 := command.Parse(b)
